@@ -5,7 +5,7 @@
    (equal model content ids => equal observed values, threaded through the whole run: a restored cell carries the
    content id of the saved cell, so the implementation must have restored exactly the saved value), index, label,
    architecture ids, optimizer <-> parameter identity, lr, hyper-parameter values, block sizes.
-   In addition: every saved agent must satisfy the side condition of the theorems ([savable]), every
+   In addition: every saved agent must satisfy the side conditions of the theorems ([savable], [share_savedb]), every
    load_checkpoint must pass the registry comparison, the real network / optimizer names must pass [prefix_ok],
    and the initial world must be separated ([sep_b]). *)
 From Coq Require Import List NArith QArith Bool FMapPositive.
@@ -16,7 +16,7 @@ Open Scope N_scope.
 
 Definition pre_ok (c : cworld) (o : cop) : bool :=
   match o with
-  | CSave i => match nth_error (w_pop (cw c)) i with Some a => savable a | None => false end
+  | CSave i => match nth_error (w_pop (cw c)) i with Some a => savable a && share_savedb a | None => false end
   | CLoad f => match nth_error (cw_files c) f with Some _ => true | None => false end
   | CLoadInto f j =>
       match nth_error (cw_files c) f, nth_error (w_pop (cw c)) j with
